@@ -303,7 +303,7 @@ fn run_decl(c: &Decl) -> Outcome {
 // ---------------------------------------------------------------------------------------------
 // (b) repetition families (run in worker processes)
 
-const FAMILIES: [&str; 23] = [
+const FAMILIES: [&str; 24] = [
     "n marker packets before a literal message -> Message::from_bytes + read",
     "n padding packets before a literal message -> Message::from_bytes + read",
     "n marker packets -> PacketParser",
@@ -327,6 +327,7 @@ const FAMILIES: [&str; 23] = [
     "armored certificate with n header lines -> SignedPublicKey::from_armor_single / from_string",
     "armor whose first header line holds only a form feed, then n header lines and no blank line, source refilled 8 KiB at a time -> Dearmor read_to_end",
     "armor whose first header line holds only a vertical tab / no-break space, then n header lines, a blank line and a body, source refilled 8 KiB at a time -> Dearmor read_to_end",
+    "n prefixed signature packets + one one-pass signature + literal + n marker / padding packets + its signature -> Message::from_bytes + read + verify",
 ];
 
 fn family_input(fam: usize, n: usize) -> Vec<u8> {
@@ -362,6 +363,14 @@ fn family_input(fam: usize, n: usize) -> Vec<u8> {
                 ops.extend_from_slice(&frame_min(4, &b));
             }
             [ops, lit, rep(&s, n)].concat()
+        }
+        23 => {
+            let s = sig();
+            let mut b = vec![3u8, 0, 8, 27];
+            b.extend_from_slice(cert.primary_key.legacy_key_id().as_ref());
+            b.push(1);
+            let skipped = [frame_min(10, b"PGP"), frame_min(21, &[0u8; 4])].concat();
+            [rep(&s, n), frame_min(4, &b), lit, rep(&skipped, n / 2), s].concat()
         }
         7 | 8 | 9 => {
             // split the genuine certificate into packets
@@ -447,7 +456,7 @@ fn family_run(fam: usize, x: &[u8]) -> &'static str {
     let cert = common::cert(KeyKind::Ed25519V4, 1);
     let pk = cert.primary_key.public_key();
     match fam {
-        0 | 1 | 5 | 6 => match Message::from_bytes(x) {
+        0 | 1 | 5 | 6 | 23 => match Message::from_bytes(x) {
             Ok(mut m) => {
                 let mut buf = [0u8; 4096];
                 loop {
@@ -553,7 +562,7 @@ fn family_n(tier: Tier, fam: usize) -> usize {
         14 => 4_000,
         // verification of n signatures is public-key work per signature: keep n moderate
         8 | 9 | 16 => tier.pick(1_000, 4_000),
-        3 | 5 | 6 => tier.pick(6_000, 25_000),
+        3 | 5 | 6 | 23 => tier.pick(6_000, 25_000),
         _ => tier.pick(25_000, 100_000),
     };
     base
@@ -1107,7 +1116,7 @@ pub fn check(ctx: &Ctx) {
         ctx,
         "repetition",
         true,
-        "23 repetition families (markers, padding, signatures, user ids, prefixed / one-pass signatures around a literal, certificates with n user ids / certifications / subkeys, n certificates, armor header lines / leading text (slice source and 8 KiB-refill source) / blank lines / body lines, armored certificate with n headers, header sections that start with a whitespace-only line of FF / VT / NBSP, cleartext dash-escaped lines, subpackets in one area, user attribute packets), each at n, 2n, 8n (n = 25000 quick / 100000 thorough; signature-verifying families 1000..25000): allocation work (bytes, requests; deterministic) within x2.6 / x11, CPU time (best of 3, re-measured before it is believed) at 8n within x24 of n (linear x8, quadratic x64), peak <= 4 MiB + 96 x input; each family in its own watchdogged process (stack overflow / hang = finding)",
+        "24 repetition families (markers, padding, signatures, user ids, prefixed / one-pass signatures around a literal, prefixed signatures in front combined with skipped packets behind the data of a one-pass message, certificates with n user ids / certifications / subkeys, n certificates, armor header lines / leading text (slice source and 8 KiB-refill source) / blank lines / body lines, armored certificate with n headers, header sections that start with a whitespace-only line of FF / VT / NBSP, cleartext dash-escaped lines, subpackets in one area, user attribute packets), each at n, 2n, 8n (n = 25000 quick / 100000 thorough; signature-verifying families 1000..25000): allocation work (bytes, requests; deterministic) within x2.6 / x11, CPU time (best of 3, re-measured before it is believed) at 8n within x24 of n (linear x8, quadratic x64), peak <= 4 MiB + 96 x input; each family in its own watchdogged process (stack overflow / hang = finding)",
         FAMILIES.len() as u64,
         1,
         Duration::from_secs(tier.pick(120, 1200)),
